@@ -7,7 +7,7 @@ import copy
 from .model import AnalysisError
 from .cfg import build_cfg
 from .expr import txt, subst, unawait, calls_in, atom, dotted
-from .absval import AbsEval, Const
+from .absval import AbsEval, Const, Kind
 
 
 class Event:
@@ -248,7 +248,15 @@ class _Frame:
                 a, pl = atom(e, True)
                 v = facts.get(a)
                 if v is not None:
-                    return Const(v if pl else (not v))
+                    t = v if pl else (not v)
+                    if isinstance(e, ast.Compare) or (
+                            isinstance(e, ast.Call) and isinstance(e.func, ast.Name) and
+                            e.func.id in ('isinstance', 'callable', 'hasattr')):
+                        return Const(t)         # a boolean-valued expression: the fact is its value
+                    b = base(e)
+                    if b is not None:
+                        return b
+                    return Kind('any', truthy=t)    # only the truthiness is known
             return base(e)
         return AbsEval(assume, self.ev.const_expr)
 
